@@ -1,6 +1,6 @@
 //! Generic minimisation over the choice tape (delta debugging; 0 is always the simplest choice).
 
-use crate::ctx::{Tape, Violation};
+use crate::ctx::{Focus, Tape, Violation};
 use crate::runner::{run_one, Scenario};
 use std::collections::BTreeMap;
 
@@ -28,8 +28,8 @@ impl St<'_> {
             return false;
         }
         self.execs += 1;
-        // no focus: the sweep is re-run completely, so a shrunk workload may fail at another index
-        let out = run_one(self.s, Tape::replay(cand), false, None, self.thorough);
+        // the active sweeps are re-run completely, so a shrunk workload may fail at another index
+        let out = run_one(self.s, Tape::replay(cand), false, Focus::labels_of(&self.focus), self.thorough);
         match out.violation {
             Some(v) if v.class == self.class && v.component() == self.component => {
                 let mut rec: Vec<u64> = out.rec.tape.iter().map(|t| t.2).collect();
